@@ -158,6 +158,33 @@ def r3(ctx, r):
                          okdesc="%s: onClose(%s, …)" % (name, show(a)))
 
 
+def r3b(ctx, r):
+    """a dequeued command that carries a session id the caller already holds always reaches its handler"""
+    fb = ctx.fb()
+    for cls, kinds in ((TCP, {"Connect": "doConnect"}), (UDP, {"Connect": "connectDo", "Via": "viaDo"})):
+        pr = engine_fn(fb, cls, "process")
+        for b in pr.blocks.values():
+            lab = b.label
+            if not lab or lab.get("k") != "case":
+                continue
+            en = lab["v"].get("n", "") if lab.get("v") else ""
+            if last(en) not in kinds:
+                continue
+            h = cls + "::" + kinds[last(en)]
+            r.instance()
+
+            def is_handler(x, h=h):
+                return x.kind == "stmt" and x.node.get("k") == "mcall" and x.node.get("callee") == h
+
+            def next_cmd(x):
+                return x.kind == "stmt" and ((x.node.get("k") == "decl" and any(v["n"] == "c" for v in x.node["vars"])) or (x.node.get("k") in ("opcall", "un") and "__begin" in show(x.node)))
+            w = search(pr, ("block", b.id), next_cmd, stop=is_handler, eh=False) or search(pr, ("block", b.id), "exit", stop=is_handler, eh=False)
+            r.expect(w is None, pr, None, "%s command can be dropped" % last(en),
+                     "%s::process can finish a %s command without calling %s: the session id already returned to the caller then never gets a connect or close event" % (
+                         last(cls), last(en), last(h)), witness=witness_str(pr, w), okdesc="%s::process: case %s always reaches %s" % (last(cls), last(en), last(h)))
+    r.floor(3, "id-bearing command kinds")
+
+
 def r4(ctx, r):
     fb = ctx.fb()
     f = engine_fn(fb, TCP, "process")
@@ -354,6 +381,49 @@ def r8(ctx, r):
              "the session's observers are not erased (under observerMutex) before they are invoked: a re-entrant close would notify them twice", okdesc="observers erased under observerMutex before invocation")
     r.expect(er_ud and all(la.holds(oc, e, IMPL + "::userDataMutex") and search(oc, c, lambda x, e=e: x is e, eh=False) is None for e in er_ud), oc, c, "user data not removed first",
              "the session's user data is not erased (under userDataMutex) before its cleanup runs: cleanup could run twice", okdesc="user data erased under userDataMutex before cleanup")
+    # the per-session observer vector keeps registration order: additions at the back, removals order-preserving
+    fb = ctx.fb()
+    nobs = 0
+    for f in fb.in_file(c03.FILE):
+        if not f.ok:
+            continue
+        if not any(n.get("k") == "member" and n["n"] == IMPL + "::observers" for n in f.nodes.values()):
+            continue
+        # names that denote a per-session vector: references bound to observers[...] / it->second
+        vecs = set()
+        for e in f.stmts():
+            if e.node.get("k") == "decl":
+                for v in e.node["vars"]:
+                    if "vector<std::pair<unsigned long, std::function" in v["t"] and "&" in v["t"]:
+                        vecs.add(v["n"])
+        for e in f.stmts():
+            n = e.node
+            if "root" not in e.raw:
+                continue
+            for x in walk(n):
+                tgt = None
+                if x.get("k") == "mcall":
+                    o = x.get("obj") or {}
+                    if (o.get("k") == "var" and o["n"] in vecs) or ("vector<std::pair<unsigned long, std::function" in o.get("t", "") and "observers" in show(o)) or \
+                            (o.get("k") == "member" and last(o["n"]) == "second" and "obs" in show(o).lower()):
+                        m = last(x.get("callee", ""))
+                        if m in access.MUTATORS:
+                            nobs += 1
+                            r.instance()
+                            ok = m in ("emplace_back", "push_back", "clear") or (m == "erase")
+                            r.expect(ok, f, e, "observer order: %s" % m, "%s modifies a session's observer list with %s(): the close fan-out iterates that list front to back, "
+                                     "so removals and additions must keep registration order" % (short(f.name), m), okdesc="%s: observer list %s" % (short(f.name), m))
+                if x.get("k") in ("opcall", "bin") and x.get("op") == "=":
+                    lhs = x["args"][0] if x.get("k") == "opcall" else x["lhs"]
+                    lt = show(lhs)
+                    if "std::pair<unsigned long, std::function" in (lhs.get("t", "") + str((lhs.get("args") or [{}])[0].get("t", ""))) and f.name.endswith("unobserve"):
+                        r.instance()
+                        r.fail(f, e, "observer slot overwritten", "%s overwrites an element of a session's observer list (`%s`): registration order is lost" % (short(f.name), show(x)[:70]))
+                    elif f.name.endswith("unobserve") and x.get("k") == "opcall" and lhs.get("k") == "opcall" and lhs.get("op") == "*":
+                        r.instance()
+                        r.fail(f, e, "observer slot overwritten", "%s overwrites an element of a session's observer list (`%s`): registration order is lost" % (short(f.name), show(x)[:70]))
+    if nobs < 2:
+        raise AnalysisBroken("observer list mutations: %d found" % nobs)
     # observers iterate the copy front to back
     r.instance()
     begins = [e for e in oc.stmts() if e.node.get("k") == "mcall" and last(e.node.get("callee", "")) in ("rbegin", "crbegin") and "sessionObservers" in show(e.node)]
@@ -364,6 +434,7 @@ def run(ctx, ck):
     ck.run_rule("C02-R1", "close notifications are fired only from the closed set of sites", "A3 who-may-call", lambda r: r1(ctx, r))
     ck.run_rule("C02-R2", "close is idempotent: !closed → closed=true → erase → notify", "A5 + A2", lambda r: r2(ctx, r))
     ck.run_rule("C02-R3", "every connect outcome is terminal exactly once", "A5 ghost counting", lambda r: r3(ctx, r))
+    ck.run_rule("C02-R3b", "a dequeued connect command always reaches its handler", "A2 must-pass", lambda r: r3b(ctx, r))
     ck.run_rule("C02-R4", "timer-originated closes are re-validated; timer handlers only enqueue", "A5 + A3", lambda r: r4(ctx, r))
     ck.run_rule("C02-R5", "announce after insertion and before data", "A2", lambda r: r5(ctx, r))
     ck.run_rule("C02-R6", "session ids are only ever incremented", "A10", lambda r: r6(ctx, r))
